@@ -3,6 +3,8 @@ package main
 import (
 	"bytes"
 	"io"
+	"net"
+	"net/url"
 	"encoding/json"
 	"fmt"
 	"os"
@@ -346,6 +348,20 @@ func raceOnGuarded(rep *report, out string) (bool, string) {
 	return false, ""
 }
 
+// faultText: the relay child died of a fault this property is about (second writer on a websocket, concurrent map)
+func faultText(out string) string {
+	for _, pat := range []string{"panic: concurrent write to websocket connection", "fatal error: concurrent map"} {
+		if i := strings.Index(out, pat); i >= 0 {
+			txt := out[i:]
+			if len(txt) > 3000 {
+				txt = txt[:3000]
+			}
+			return txt
+		}
+	}
+	return ""
+}
+
 func otherRaces(out string) int { return strings.Count(out, "WARNING: DATA RACE") }
 
 func splitName(fn string) (store, method string) {
@@ -374,6 +390,14 @@ func searchRace(rep *report, d diag, budget time.Duration, g *lib.Rng) (bool, ev
 	relayFallback := func(secs int) (bool, evidence) {
 		ev.Tried = append(ev.Tried, fmt.Sprintf("full relay under 16 clients (race build, %ds)", secs))
 		out := runRelayChild(secs, int64(g.Intn(1<<30)))
+		if i := strings.Index(out, "@@NOTATOMIC "); i >= 0 && d.Kind == "handler-not-all-or-nothing" {
+			ev.Store, ev.A, ev.B, ev.Mode, ev.Evidence = store, method, "(full relay, abandoned callers)", "race", strings.SplitN(out[i:], "\n", 2)[0]
+			return true, ev
+		}
+		if txt := faultText(out); txt != "" && d.Kind == "second-writer-on-connection" {
+			ev.Store, ev.A, ev.B, ev.Mode, ev.Evidence = store, method, "(full relay, client pings)", "race", "@@FAULT " + txt
+			return true, ev
+		}
 		if i := strings.Index(out, "@@CORRUPT "); i >= 0 && d.Kind == "buffer-shared-across-goroutines" {
 			ev.Store, ev.A, ev.B, ev.Mode, ev.Evidence = store, method, "(full relay, large frames)", "race", strings.SplitN(out[i:], "\n", 2)[0]
 			return true, ev
@@ -597,6 +621,23 @@ func stressRelay(res *lib.Result, rep *report, args lib.Args, g *lib.Rng) {
 	} else {
 		res.Notes = append(res.Notes, "relay stress did not report: "+tail(out, 400))
 	}
+	if i := strings.Index(out, "@@NOTATOMIC "); i >= 0 {
+		line := strings.SplitN(out[i+len("@@NOTATOMIC "):], "\n", 2)[0]
+		res.Violate(lib.Violation{Clause: "request-not-all-or-nothing", Case: -1, Key: "notatomic:abandoned-deny",
+			Detail: line, Replay: replayCase{Kind: "relay", Mode: "mix", Evidence: "@@NOTATOMIC " + line}})
+	}
+	if txt := faultText(out); txt != "" {
+		res.Violate(lib.Violation{Clause: "process-faults", Case: -1, Key: "fault:relay",
+			Detail: "the relay process died during the stress (16 clients, large frames, abandoned callers, client pings): " + firstLine(txt),
+			Replay: replayCase{Kind: "relay", Mode: "mix", Evidence: txt}})
+	}
+	for _, k := range [][2]string{{"@@ABANDONED done closed=", "relay_abandoned_denies_that_closed_the_connection"}, {"@@PINGS done pongs=", "relay_client_pings_answered"}} {
+		if m := regexp.MustCompile(regexp.QuoteMeta(k[0]) + `(\d+)`).FindStringSubmatch(out); m != nil {
+			var n int
+			fmt.Sscan(m[1], &n)
+			res.CountN(k[1], n)
+		}
+	}
 	if i := strings.Index(out, "@@CORRUPT "); i >= 0 {
 		line := strings.SplitN(out[i+len("@@CORRUPT "):], "\n", 2)[0]
 		res.Violate(lib.Violation{Clause: "delivered-frame-corrupted", Case: -1, Key: "corrupt:bigframes",
@@ -747,7 +788,127 @@ func dumpParked(what string) {
 // reading late, so that several large frames are in flight inside the relay at once; every frame the reader gets
 // must be, byte for byte, one of the frames sent, in sending order. Returns a description of the first corrupt
 // frame, or "".
-var bigDelivered int
+var bigDelivered, abandonedClosed, pongsSeen int
+
+func admin0(r *lib.Relay) string { return r.AdminBearer("relay:admin") }
+
+// abandonedDeny: a caller that sends POST /bids/deny and goes away without waiting for the answer. Whatever the
+// handler does about the vanished caller, the request must take effect as a whole or not at all: if the booking ends
+// up deny-listed, its live connection must have been closed.
+func abandonedDeny(r *lib.Relay, admin string) string {
+	u, err := url.Parse(r.AccessURL)
+	if err != nil {
+		return ""
+	}
+	for round := 0; round < 24; round++ {
+		now := time.Now().Unix()
+		bid := fmt.Sprintf("gone-%d", round)
+		topic := fmt.Sprintf("gone%d", round)
+		tok := lib.Sign(r.Claims(topic, bid, []string{"read", "write"}, now-2, now-2, now+60), r.Secret)
+		st, uri, _ := r.Session(topic, tok)
+		if st != 200 {
+			continue
+		}
+		ws, _, err := lib.Dial(uri, nil)
+		if err != nil {
+			continue
+		}
+		time.Sleep(30 * time.Millisecond) // registered with the hub, cancel channel recorded
+		if c, err := net.DialTimeout("tcp", u.Host, time.Second); err == nil {
+			fmt.Fprintf(c, "POST /bids/deny?bid=%s&exp=%d HTTP/1.1\r\nHost: %s\r\nAuthorization: %s\r\nContent-Length: 0\r\n\r\n", bid, now+30, u.Host, admin)
+			c.Close() // gone before the answer
+		}
+		// one read with a 2 s deadline: a time-out means "still open" (and gorilla does not allow reading again after it)
+		closed := false
+		for {
+			_, _, err := lib.ReadOne(ws, 2*time.Second)
+			if err == nil {
+				continue // somebody's data; keep waiting for the close
+			}
+			closed = !lib.IsTimeout(err)
+			break
+		}
+		ws.Close()
+		if closed {
+			abandonedClosed++
+			continue
+		}
+		ids, code := r.BidList("deny", admin)
+		if code != 200 {
+			continue
+		}
+		for _, id := range ids {
+			if id == bid {
+				return fmt.Sprintf("POST /bids/deny?bid=%s from a caller that went away without waiting for the answer: the booking IS on the deny list, but its live connection was still open 2 s later - the request took effect in part (no order of complete requests gives deny-listed + still connected)", bid)
+			}
+		}
+	}
+	return ""
+}
+
+// pingStorm: a reader that sends websocket PING frames while the relay is busy writing traffic to it
+func pingStorm(r *lib.Relay) {
+	now := time.Now().Unix()
+	connect := func(bid string) *websocket.Conn {
+		tok := lib.Sign(r.Claims("pings", bid, []string{"read", "write"}, now-2, now-2, now+60), r.Secret)
+		st, uri, _ := r.Session("pings", tok)
+		if st != 200 {
+			return nil
+		}
+		ws, _, err := lib.Dial(uri, nil)
+		if err != nil {
+			return nil
+		}
+		return ws
+	}
+	rdr, wtr := connect("ping-r"), connect("ping-w")
+	if rdr == nil || wtr == nil {
+		return
+	}
+	defer rdr.Close()
+	defer wtr.Close()
+	rdr.SetPongHandler(func(string) error { pongsSeen++; return nil })
+	time.Sleep(50 * time.Millisecond)
+	stop := make(chan struct{})
+	var wg sync.WaitGroup
+	wg.Add(2)
+	go func() { // traffic towards the reader
+		defer wg.Done()
+		payload := make([]byte, 32*1024)
+		for {
+			select {
+			case <-stop:
+				return
+			default:
+			}
+			if wtr.WriteMessage(websocket.BinaryMessage, payload) != nil {
+				return
+			}
+		}
+	}()
+	go func() { // the reader pings all the time (WriteControl may be used concurrently with the read loop below)
+		defer wg.Done()
+		for {
+			select {
+			case <-stop:
+				return
+			default:
+			}
+			if rdr.WriteControl(websocket.PingMessage, []byte("k"), time.Now().Add(time.Second)) != nil {
+				return
+			}
+			time.Sleep(200 * time.Microsecond)
+		}
+	}()
+	end := time.Now().Add(1200 * time.Millisecond)
+	for time.Now().Before(end) {
+		if _, _, err := lib.ReadOne(rdr, 100*time.Millisecond); err != nil && !lib.IsTimeout(err) {
+			break
+		}
+	}
+	close(stop)
+	wg.Wait()
+}
 
 func bigFrames(r *lib.Relay, round int) string {
 	now := time.Now().Unix()
@@ -843,6 +1004,8 @@ func childRelay(a []string) {
 			}
 		}
 		fmt.Fprintf(os.Stderr, "@@BIGFRAMES done intact=%d\n", bigDelivered)
+		pingStorm(r)
+		fmt.Fprintf(os.Stderr, "@@PINGS done pongs=%d\n", pongsSeen)
 		if mode == "bigframes" {
 			r.Stop()
 			return
@@ -917,6 +1080,13 @@ func childRelay(a []string) {
 	}
 	wg.Wait()
 	fmt.Fprintf(os.Stderr, "@@RELAY sessions=%d conns=%d msgs=%d admin=%d\n", sessions, conns, msgs, adm)
+	if mode == "mix" {
+		// now that the code store holds the thousands of codes of the load above (a purge takes a while)
+		if bad := abandonedDeny(r, admin); bad != "" {
+			fmt.Fprintf(os.Stderr, "@@NOTATOMIC %s\n", bad)
+		}
+		fmt.Fprintf(os.Stderr, "@@ABANDONED done closed=%d\n", abandonedClosed)
+	}
 	hangProbe(r, admin)
 	r.Stop()
 	time.Sleep(100 * time.Millisecond)
